@@ -142,6 +142,10 @@ func main() {
 	case "scenario":
 		// one server scenario in this process, observations flushed token by token (see c07.go)
 		a := os.Args[3:]
+		if len(a) == 3 && a[0] == "dups" {
+			runDups(atoi(a[1]), os.Stdout)
+			return
+		}
 		if len(a) != 3 || a[2] == "-" {
 			os.Stdout.WriteString("BAD-CASE")
 			return
